@@ -10,7 +10,12 @@ def parseEntry (j : Json) : R Entry := do
 def parseOp (j : Json) : R Op := do
   match ← str j "op" with
   | "indexed" => return .indexed (← str j "base").toList
-  | "results" => return .results (← str j "dset").toList (← str j "tool").toList (← bool j "same")
+  | "results" =>
+    let d ← str j "dset"
+    let sid := match j.getObjVal? "sid" with
+      | .ok (Json.str x) => x
+      | _ => d
+    return .results d.toList (← str j "tool").toList (← bool j "same") sid.toList
   | _ => return .del (← str j "name").toList
 
 def outJson : Except PyErr Str → Json
@@ -23,12 +28,19 @@ def hGrpRun (j : Json) : R Json := do
   let ops ← (← arr j "ops").mapM parseOp
   let (par, outs) := runOps init ops
   let queries ← (← arr j "queries").mapM fun q => do
-    return ((← str q "dset").toList, (← str q "tool").toList)
+    let d ← str q "dset"
+    let sid := match q.getObjVal? "sid" with
+      | .ok (Json.str x) => x
+      | _ => d
+    let same := match q.getObjVal? "same" with
+      | .ok (Json.bool b) => b
+      | _ => false
+    return (d.toList, (← str q "tool").toList, same, sid.toList)
   let sources ← strList j "sources"
   return Json.mkObj [
     ("outs", ofList (outs.map outJson)),
     ("listing", ofStrList ((names par).map String.ofList)),
-    ("find", ofList (queries.map fun (d, t) => ofStrList ((findResults par d t).map String.ofList))),
+    ("find", ofList (queries.map fun (d, t, same, sid) => ofStrList ((findResults par d t same sid).map String.ofList))),
     ("sources", ofList (sources.map fun s => outJson (getSource par s.toList)))]
 
 end Usid.Driver
